@@ -1574,7 +1574,10 @@ func (e *Engine) typeAssert(st *State, fr *Frame, x *ssa.TypeAssert) Value {
 			if v.T == opaqueErrType {
 				ok = isErrorIface(x.AssertedType) || it.NumMethods() == 0
 			} else {
-				ok = types.Implements(v.T, it) || e.implementsByName(v.T, it)
+				// conversions written inside the models package are trusted (model types implement
+				// only the methods that are used); everywhere else every method must exist by name
+				inModels := fr.fn.Pkg != nil && fr.fn.Pkg == e.modelsPkg
+				ok = types.Implements(v.T, it) || (inModels && isModelType(v.T)) || e.implementsByName(v.T, it)
 			}
 			res = v
 		} else {
@@ -1595,8 +1598,8 @@ func (e *Engine) typeAssert(st *State, fr *Frame, x *ssa.TypeAssert) Value {
 }
 
 func (e *Engine) implementsByName(t types.Type, it *types.Interface) bool {
-	if isModelType(t) {
-		return true
+	if !isModelType(t) {
+		return false
 	}
 	ms := e.prog.MethodSets.MethodSet(t)
 	for i := 0; i < it.NumMethods(); i++ {
